@@ -29,7 +29,9 @@
   `logical_perf` and on every reported probability in terms of the trimmed mass); a long-lived `Simulator` /
   `Processor` whose selection changes (`Model/C04Session.lean`: state machines with the concrete backend mask;
   history-independence); superposed inputs through `_probs_svd_generic` (`Model/C04Generic.lean`: masked group
-  amplitudes and interference; equality with the specification conditioning of `probsSV` / `probsSVD`).
+  amplitudes and interference; equality with the specification conditioning of `probsSV` / `probsSVD`); trimming on
+  the detector path and on the superposed path (`Model/C04TrimDet.lean`) and a-priori bounds of the trimmed mass
+  (`Lemmas/C04Apriori.lean`).
 
   NOT proved (validated by the correspondence only, or outside the model): see the list at the end of this file.
 -/
@@ -43,6 +45,7 @@ import PercevalModel.Lemmas.C04Session
 import PercevalModel.Lemmas.C04Generic
 import PercevalModel.Lemmas.C04TrimDet
 import PercevalModel.Lemmas.C04Apriori
+import PercevalModel.Lemmas.C04TrimGen
 import PercevalModel.Lemmas.C03Mass
 import PercevalModel.Props.C02
 
@@ -1750,14 +1753,131 @@ example : trimmedMassDet idEng tPrec tCfg tDets tMembers ≤ aprioriDet idEng tP
   (trimmed_mass_det_apriori idEng tPrec tCfg tDets tMembers 3 (by decide) tEng tMix (by decide) (by decide +kernel)
     (by decide +kernel) tN tKerns).2
 
+/-! ### superposed inputs at a non-zero precision (`Model/C04TrimDet.lean`, part B)
+
+`probsSvdGenθ U P c members` is `probs_svd` on a mixture of superpositions at precision `P`: the relative threshold on
+the members, and inside every member the amplitude threshold of `_merge_sv` (`abs(pa1·pa2) > sqrt(θ/(10·|c|²·w))`,
+first group untouched) applied to the *masked* group amplitudes, before the terms interfere.  Dropping a component can
+raise or lower a probability, so there is no domination here; the statements are: the mask commutes with the
+thresholded merge (`mask_commutes_with_merge_threshold`), threshold 0 is the exact masked model
+(`merge_threshold_zero_exact`), every member's probabilities move by at most C03's coherent bound
+`|l|² + 2|b||l|` per annotated output (`merge_threshold_bound_superposed`, error distribution `genErrDM`), and — through
+the mixture, the photon filter, the performance bookkeeping and `post_select_distribution` — `physical_perf` is exact,
+`logical_perf` and every reported probability are within explicit functions of the exactly computable error
+distribution `genErrD` of the exact masked model `probsSvdGen`, which `condition_spec_superposed` identifies with the
+specification. -/
+
+/-- **mask_commutes_with_merge_threshold.**  At every threshold, the components the code keeps for one term under the
+herald mask are the components it keeps without mask whose group outputs all pass the mask — as lists. -/
+theorem mask_commutes_with_merge_threshold {m : ℕ} (U : Matrix (Fin m) (Fin m) GQ) (c : Cfg) (n : ℕ) (thr : ℚ)
+    (gs : List Fock) :
+    evolveTermθM U c n thr gs = (PM.C03.evolveTermθ U thr gs).filter fun x => keyOk c n x.1 :=
+  evolveTermθM_eq_filter U c n thr gs
+
+/-- **merge_threshold_zero_exact.**  With threshold 0 the code-shaped thresholded model gives every outcome the
+probability of the exact masked model (`memberGen`, the subject of `mask_invariance_superposed`). -/
+theorem merge_threshold_zero_exact {m : ℕ} (U : Matrix (Fin m) (Fin m) GQ) (c : Cfg) (w : ℚ) (terms : List Term)
+    (hl : ∀ t ∈ terms, ∀ s ∈ t.groups, s.length = m) (t : Fock) :
+    get (memberGenθ U c 0 w terms) t = get (memberGen U c terms) t :=
+  memberGenθ_zero U c w terms hl t
+
+/-- **merge_threshold_bound_superposed.**  One member: the amplitude threshold moves the probability of every outcome
+by at most what the error distribution gives to it (per annotated output: squared dropped amplitude plus twice the
+product of the moduli of kept and dropped amplitude, with rational upper square roots). -/
+theorem merge_threshold_bound_superposed {m : ℕ} (U : Matrix (Fin m) (Fin m) GQ) (c : Cfg) (θ w : ℚ)
+    (terms : List Term) (hl : ∀ t ∈ terms, ∀ s ∈ t.groups, s.length = m) (t : Fock) :
+    |get (memberGen U c terms) t - get (memberGenθ U c θ w terms) t| ≤ get (genErrDM U c θ w terms) t := by
+  rw [← memberGenθ_zero U c w terms hl t]
+  exact memberGenθ_bound U c θ w terms t
+
+/-- **superposed_trim_near.**  For every predicate on outcomes, the list accumulated at precision `P` and the list the
+exact masked model accumulates give it masses that differ by at most the mass the error distribution gives it
+(dropped members with their whole distribution, kept members with their coherent bound). -/
+theorem superposed_trim_near {m : ℕ} (U : Matrix (Fin m) (Fin m) GQ) (P : Prec) (c : Cfg) (members : List GMember)
+    (hw : ∀ g ∈ members, 0 ≤ g.w) (hl : ∀ g ∈ members, ∀ t ∈ g.terms, ∀ s ∈ t.groups, s.length = m)
+    (f : Fock → Bool) :
+    |mass (restrict f (AM.res c (members.map (toAM U c)))) - mass (restrict f (genResθ U P c members))| ≤
+      mass (restrict f (genErrD U P c members)) :=
+  genResθ_near_exact U P c members hw hl f
+
+/-- **physical_perf_trim_exact_superposed.**  The physical performance does not depend on the precision. -/
+theorem physical_perf_trim_exact_superposed {m : ℕ} (U : Matrix (Fin m) (Fin m) GQ) (P : Prec) (c : Cfg)
+    (members : List GMember) : (probsSvdGenθ U P c members).phys = (probsSvdGen U c members).phys :=
+  probsSvdGenθ_phys U P c members
+
+/-- **logical_perf_trim_bound_superposed.**  The logical performance at precision `P` is within
+`(accepted mass of the error distribution) / physical_perf` of the exact masked model's. -/
+theorem logical_perf_trim_bound_superposed {m : ℕ} (U : Matrix (Fin m) (Fin m) GQ) (P : Prec) (c : Cfg)
+    (members : List GMember) (hw : ∀ g ∈ members, 0 ≤ g.w)
+    (hl : ∀ g ∈ members, ∀ t ∈ g.terms, ∀ s ∈ t.groups, s.length = m)
+    (hphys : 0 < AM.phys c (members.map (toAM U c))) :
+    |(probsSvdGenθ U P c members).logical - (probsSvdGen U c members).logical| ≤
+      mass (restrict (logicOk (cond c)) (genErrD U P c members)) / AM.phys c (members.map (toAM U c)) :=
+  probsSvdGenθ_logical_bound U P c members hw hl hphys
+
+/-- **results_trim_bound_superposed.**  Whenever both computations retain something, every reported probability is
+within `(e_t + p_t · E) / (retained mass at precision P)` of the exact masked model's, `e_t` = what the accepted,
+relabelled error distribution gives to the outcome, `E` its total, `p_t` the exact reported probability. -/
+theorem results_trim_bound_superposed {m : ℕ} (U : Matrix (Fin m) (Fin m) GQ) (P : Prec) (c : Cfg)
+    (members : List GMember) (hw : ∀ g ∈ members, 0 ≤ g.w)
+    (hl : ∀ g ∈ members, ∀ t ∈ g.terms, ∀ s ∈ t.groups, s.length = m)
+    (h0 : mass (restrict (logicOk (cond c)) (AM.res c (members.map (toAM U c)))) ≠ 0)
+    (hθ : mass (restrict (logicOk (cond c)) (genResθ U P c members)) ≠ 0) (t : Fock) :
+    |get (probsSvdGenθ U P c members).results t - get (probsSvdGen U c members).results t| ≤
+      (get (mapKeys (reported (cond c)) (restrict (logicOk (cond c)) (genErrD U P c members))) t +
+        get (probsSvdGen U c members).results t * mass (restrict (logicOk (cond c)) (genErrD U P c members))) /
+      mass (restrict (logicOk (cond c)) (genResθ U P c members)) :=
+  probsSvdGenθ_results_bound U P c members hw hl h0 hθ t
+
+/-- **logical_perf_trim_bound_superposed_spec.**  …hence, under the hypotheses of `condition_spec_superposed`, within
+the same distance of the specification's P(heralds ∧ post-selection | filter passed) of `probsSVD`. -/
+theorem logical_perf_trim_bound_superposed_spec {m : ℕ} (U : Matrix (Fin m) (Fin m) GQ) (P : Prec) (c : Cfg)
+    (hcm : c.m = m) (wf : HeraldsWF c.m c.heralds) (members : List GMember) (ok : GenOK U members)
+    (hphys : 0 < AM.phys c (members.map (toAM U c))) :
+    (probsSvdGenθ U P c members).phys = physPerf (cond c) (probsSVD U (members.map fun g => (g.w, g.terms))) ∧
+    |(probsSvdGenθ U P c members).logical -
+        logicalPerf (cond c) (probsSVD U (members.map fun g => (g.w, g.terms)))| ≤
+      mass (restrict (logicOk (cond c)) (genErrD U P c members)) / AM.phys c (members.map (toAM U c)) := by
+  obtain ⟨h1, h2, _⟩ := condition_spec_superposed U c hcm wf members ok
+  refine ⟨by rw [probsSvdGenθ_phys, h1], ?_⟩
+  rw [← h2]
+  exact probsSvdGenθ_logical_bound U P c members ok.wpos (fun g hg => (ok.sv g hg).len) hphys
+
+/-! non-vacuity (the hypotheses that can be decided without evaluating permanents in the kernel): `uCfg`, the
+superposition `gTerms` with weight 1 — non-negative weight, 2-mode groups, input-side physical performance 1.  That
+both computations retain something (`results_trim_bound_superposed`) is observed on every compared case of the
+correspondence (driver fields `retainedTrimmed`, `retained`; counter `trim-sup-compared-changes-the-answer`). -/
+
+example : (∀ g ∈ [(⟨1, gTerms⟩ : GMember)], 0 ≤ g.w) ∧
+    (∀ g ∈ [(⟨1, gTerms⟩ : GMember)], ∀ t ∈ g.terms, ∀ s ∈ t.groups, s.length = 2) ∧
+    0 < AM.phys uCfg ([(⟨1, gTerms⟩ : GMember)].map (toAM PM.C02.exU uCfg)) := by
+  refine ⟨?_, ?_, ?_⟩
+  · intro g hg; simp only [List.mem_singleton] at hg; subst hg; norm_num
+  · intro g hg; simp only [List.mem_singleton] at hg; subst hg; exact gSV.len
+  · decide +kernel
+
+example : |(probsSvdGenθ PM.C02.exU ⟨1/10, 0⟩ uCfg [⟨1, gTerms⟩]).logical -
+      (probsSvdGen PM.C02.exU uCfg [⟨1, gTerms⟩]).logical| ≤
+    mass (restrict (logicOk (cond uCfg)) (genErrD PM.C02.exU ⟨1/10, 0⟩ uCfg [⟨1, gTerms⟩])) /
+      AM.phys uCfg ([(⟨1, gTerms⟩ : GMember)].map (toAM PM.C02.exU uCfg)) :=
+  logical_perf_trim_bound_superposed PM.C02.exU ⟨1/10, 0⟩ uCfg [⟨1, gTerms⟩]
+    (by intro g hg; simp only [List.mem_singleton] at hg; subst hg; norm_num)
+    (by intro g hg; simp only [List.mem_singleton] at hg; subst hg; exact gSV.len)
+    (by decide +kernel)
+
 /-! ### what is still NOT a theorem
 
-* probability trimming: the fast path without detectors / with PNR detectors is modelled and bounded above
-  (`probsSvdθ`, `logical_perf_trim_bound`, `results_trim_bound`, `physical_perf_trim_exact`); NOT modelled: the
-  per-state `list_tensor_product` threshold of `simulate_detectors` (layouts containing a non-PNR detector), the
-  amplitude threshold of `_merge_sv` on the superposed path, and `min_p` acting on the engine's own output — those
-  paths are driven at precision 0 only.  No a-priori bound of the trimmed mass in terms of the precision is proved
-  (the trimmed mass is computed exactly per case by the driver; the harness's crude a-priori bound is a test device);
+* probability trimming is now modelled on every path of `probs_svd`: fast path (`probsSvdθ`), layouts with a non-PNR
+  detector (`probsSvdDetθ`: `simulate_detectors`' per-state threshold on the merged dict) and superposed inputs
+  (`probsSvdGenθ`: `_merge_sv`'s amplitude threshold under the mask), each with bounds in terms of exactly computed
+  trimmed quantities; a-priori bounds (threshold × number of entries of the stage, hence explicit functions of the
+  configured precision and of sizes) are proved for the fast path and the detector path (`trimmed_mass_apriori`,
+  `trimmed_mass_det_apriori` and their consequences).  NOT proved: an a-priori bound for the superposed path (the
+  coherent error `|l|² + 2|b||l|` is first order in the dropped amplitude: the harness's direct oracle uses a crude,
+  unproved amplitude bound there); `min_p` acting inside `BSDistribution.add` (1e-16 per entry); the native
+  `StateVector`'s own cut-off `min_complex_component = 1e-6` on amplitudes (exqalibur: components of modulus ≤ 1e-6 are
+  dropped whatever the precision — not modelled; the correspondence sets aside superposed cases whose model holds a
+  non-zero amplitude below 1e-5); superposed inputs combined with detectors;
 * the superposed-input path is modelled and proved for members whose terms hold one photon number
   (`condition_spec_superposed`); `_split_by_photon_count` (C03's `splitByN`) in front of it, superposed inputs combined
   with detectors, and `evolve` of a genuine superposition are compared by the correspondence only / not at all;
